@@ -143,6 +143,9 @@ func (l *queue) Open() error {
 func (l *queue) Close() error {
 	l.mu.Lock()
 	defer l.mu.Unlock()
+	if verifhook.Enabled {
+		verifhook.Emit("hh.close.locked", l.dir)
+	}
 
 	for _, s := range l.segments {
 		if err := s.close(); err != nil {
@@ -375,7 +378,7 @@ func (l *queue) Append(b []byte) error {
 
 	buffered := len(l.limiter) >= 10
 	if verifhook.Enabled {
-		verifhook.Emit("hh.append.locked", l.dir, len(b), buffered)
+		verifhook.Emit("hh.append.locked", l.dir, b, buffered)
 	}
 	defer func() {
 		if buffered && len(l.limiter) <= 1 {
